@@ -15,6 +15,15 @@ CHECK_DEADLOCK FALSE
 """
 
 
+ASSUME = [
+        "system-call level: the operation is deterministic up to temporary names, so the n-th call of a fresh run is the call recorded; every kill run is checked to have died on entry of the same abstract call (others are counted as unrealised); only calls of the operation's own thread inside the watched directory are projected (no mmap writes there)",
+
+        "process-crash model: the directory is copied at every crash point (hook between two file-system effects); a crash while the temporary file is being written is emulated by truncating it to prefix lengths 0, 1, half, len-1",
+        "consistency of a final-named file with its name is decided by the component's own validators (shard: content hash = name and it parses; xorb: validate_cas_object for the name's hash; cache item: length and crc32 of the name)",
+        "cache_put gives up subsumed and evicted items by design; everything else retrievable before must be retrievable after the re-open",
+]
+
+
 def validate(ctx, path, label):
     return ctx.validate("Trace_AtomicFs", TRACE_CFG, path, label=label, header=1)
 
@@ -43,6 +52,12 @@ def check(ctx):
     if missing:
         raise vlib.ToolError("vacuity: crash points never reached: %s" % missing)
     # system-call level: kill a fresh run just before every modifying system call (independent of the hooks)
+    if not sysfs.available():
+        # the hook-based crash points above stand on their own; the evidence says that this part did not run
+        ctx.notes["syscall_level"] = "skipped: strace / ptrace is not available in this environment"
+        vlib.log("[c19] strace not available: system-call level exploration skipped")
+        ctx.assumptions += ASSUME
+        return
     sysw = vlib.workdir("c19sys")
     lines, tot, ops = ['{"ev":"AfSetup"}'], {"events": 0, "kills": 0, "unrealised": 0, "operations": 0}, {}
     for proto in ("shard_flush", "consolidate", "local_put", "cache_put"):
@@ -66,13 +81,7 @@ def check(ctx):
             raise vlib.ToolError("vacuity: no %s system call observed" % need_op)
     if tot["kills"] == 0 or tot["unrealised"] * 5 > tot["events"]:
         raise vlib.ToolError("vacuity: kill runs not realised: %s" % tot)
-    ctx.assumptions += [
-        "system-call level: the operation is deterministic up to temporary names, so the n-th call of a fresh run is the call recorded; every kill run is checked to have died on entry of the same abstract call (others are counted as unrealised); only calls of the operation's own thread inside the watched directory are projected (no mmap writes there)",
-
-        "process-crash model: the directory is copied at every crash point (hook between two file-system effects); a crash while the temporary file is being written is emulated by truncating it to prefix lengths 0, 1, half, len-1",
-        "consistency of a final-named file with its name is decided by the component's own validators (shard: content hash = name and it parses; xorb: validate_cas_object for the name's hash; cache item: length and crc32 of the name)",
-        "cache_put gives up subsumed and evicted items by design; everything else retrievable before must be retrievable after the re-open",
-    ]
+    ctx.assumptions += ASSUME
 
 
 def replay(ctx, path):
